@@ -7,6 +7,7 @@ import (
 	"reflect"
 	"strconv"
 	"strings"
+	"time"
 
 	"github.com/alecthomas/participle/v2"
 	"github.com/alecthomas/participle/v2/lexer"
@@ -266,6 +267,9 @@ func (e *explorer) runGrammar(gr *gfam.Grammar, onlyInput *string) {
 						if ir.ok {
 							w.DistinctS(g.RenderValue(ir.v, true))
 							w.Count("accepting_cases", 1)
+							if prev != nil && !prev.ok && len(in) >= 3 {
+								w.Sample(map[string]any{"grammar": gr.Root.Source(), "input": in, "rejected_at_lookahead": prevK, "accepted_at_lookahead": k, "trailing": at, "ast": g.RenderValue(ir.v, true)})
+							}
 						}
 						c := ir
 						prev, prevK = &c, k
@@ -386,8 +390,8 @@ func plan(c *hx.Ctx) *hx.Plan {
 			(&explorer{prop: c.Prop, w: w, tc: tc}).runGrammar(grs[i], nil)
 		},
 		Describe: func(i int) string { return grs[i].Key() },
-		Rule: "every grammar of the listed families (all bracketings of sequence/alternation over the leaf sets, every group modifier on every composite operand, field-kind schemes) built as a real Go struct type via reflect.StructOf and participle.Build; every token string over the family's alphabet up to its length bound; every lookahead in {0,1,2,3,MaxLookahead,unlimited} x AllowTrailing {off,on}. evaluations = real Parse calls; each is compared with the reference interpreter (C01/C02/C10/C11) or with the same input at the next smaller lookahead (C13). distinct_nontrivial = distinct accepted ASTs (rendered). states = evaluations, transitions = reference-interpreter node evaluations",
-		Bounds: map[string]any{"families": famCount, "lookaheads": lookaheads, "allow_trailing": []bool{false, true}},
+		Rule:     "every grammar of the listed families (all bracketings of sequence/alternation over the leaf sets, every group modifier on every composite operand, field-kind schemes) built as a real Go struct type via reflect.StructOf and participle.Build; every token string over the family's alphabet up to its length bound; every lookahead in {0,1,2,3,MaxLookahead,unlimited} x AllowTrailing {off,on}. evaluations = real Parse calls; each is compared with the reference interpreter (C01/C02/C10/C11) or with the same input at the next smaller lookahead (C13). distinct_nontrivial = distinct accepted ASTs (rendered). states = evaluations, transitions = reference-interpreter node evaluations",
+		Bounds:   map[string]any{"families": famCount, "lookaheads": lookaheads, "allow_trailing": []bool{false, true}},
 		Assume: []string{
 			"token stream handed to the reference semantics is the output of the real Parser.Lex",
 			"grammars with nullable alternatives / repetition bodies / union members, nested captures, and cases in which the library's own 'did not progress' diagnostic applies are out of domain (counted)",
@@ -416,7 +420,7 @@ func replay(c *hx.Ctx, key string) []hx.Violation {
 }
 
 func main() {
-	hx.Main(&hx.Spec{Engine: "gramx", Levels: map[string]string{
+	hx.Main(&hx.Spec{Engine: "gramx", JobTimeout: 30 * time.Second, Levels: map[string]string{
 		"C01": "model_checking", "C02": "model_checking", "C10": "model_checking", "C11": "model_checking", "C13": "exploration",
 	}, Plan: plan, Replay: replay})
 }
